@@ -125,6 +125,10 @@ fn one_question(zones: &Zones, cache: &SharedCache, question: &Question) -> Stri
 }
 
 fn run(zones_tok: &str, cache_tok: &str, questions: &str) -> String {
+    run_at(0, zones_tok, cache_tok, questions)
+}
+
+fn run_at(advance_ms: u64, zones_tok: &str, cache_tok: &str, questions: &str) -> String {
     clock::set_ns(0);
     let mut zones = Zones::new();
     if zones_tok != "_" {
@@ -136,6 +140,7 @@ fn run(zones_tok: &str, cache_tok: &str, questions: &str) -> String {
     for r in rrs_of_tok(cache_tok) {
         cache.insert(&r);
     }
+    clock::advance_ns(advance_ms * 1_000_000);
     questions
         .split('|')
         .map(|q| {
@@ -153,6 +158,9 @@ fn run(zones_tok: &str, cache_tok: &str, questions: &str) -> String {
 pub fn handle(toks: &[&str]) -> String {
     match toks {
         ["R", zones, cache, questions] | ["R", zones, cache, questions, _] => run(zones, cache, questions),
+        ["T", ms, zones, cache, questions] | ["T", ms, zones, cache, questions, _] => {
+            run_at(ms.parse().unwrap(), zones, cache, questions)
+        }
         _ => panic!("local: bad case"),
     }
 }
